@@ -25,6 +25,10 @@ STRINGS.insert(3, "SYS:CCCO.|30%|CC{[$][$]CC[$][$]}|gauss(60, 10)|CO.|45%|c1cccc
 # the central carbon in one spelling, a methyl carbon in the other): what was generated from one must not decide what the other gives
 STRINGS.insert(4, "F{[$][$]CC[$][$]}|uniform(20, 60)|C(C)(C)O")
 STRINGS.insert(5, "F{[$][$]CC[$][$]}|uniform(20, 60)|CC(C)O")
+# a second system whose specifiers re-use the number texts of the first one in the other kind (30 % there, 30 absolute here)
+STRINGS.insert(4, "SYS:CCCO.|30|CCN.|45|c1ccccc1.|250%|".replace("250%", "25"))
+# choices among candidates whose weights are all zero (uniform pick - from the supplied generator)
+STRINGS.insert(5, "CC{[$][$|0|]CC[$|0|],[$|0|]C(F)C[$|0|][$]}|gauss(120, 10)|CO")
 
 
 def choose_seeds(g, text):
@@ -49,7 +53,7 @@ def choose_seeds(g, text):
 def run(tier):
     g = common.import_repo()
     v = Verdict("C10", tier)
-    strings = STRINGS if tier == "thorough" else STRINGS[:11]
+    strings = STRINGS if tier == "thorough" else STRINGS[:13]
     # seeds are chosen with a RecordingRNG, but the replay uses numpy's default_rng: map through the drawn value
     seedmap = []
     for s in strings:
